@@ -790,6 +790,15 @@ class Interp:
                         continue
                     self.ev(s_, env, members)
                     continue
+                if k == 'init':
+                    # a constructor's member initialiser: the member gets the value (aggregates / zero-initialisation: skipped)
+                    try:
+                        ini_ = strip(s_.get('e'))
+                        if ini_ is not None and ini_.get('k') not in ('zeroinit', 'initlist') and s_.get('field'):
+                            members[s_['field']] = self.ev(s_['e'], env, members)
+                    except Unsupported:
+                        pass
+                    continue
                 if k == 'autodtor':
                     if self.call_hook is not None and s_.get('id') in env:
                         self.call_hook({'k': 'autodtor', 'cname': '~auto', 'loc': s_.get('loc')}, [env[s_['id']]], env, members)
